@@ -28,7 +28,7 @@ func init() { fw.Register(c12{}) }
 func (c12) Meta() fw.Meta {
 	return fw.Meta{
 		ID: "C12",
-		Rule: "setup = the real `whispertool server` (built from the working tree) as a child process per worker, serving a generated tree per case: nested item directories, two layouts, sparse contents, a corrupt file, an empty item directory, file names needing URL escaping (space, +, %, &, #, unicode). " +
+		Rule: "setup = the real `whispertool server` (built from the working tree) as a child process per worker, serving a generated tree per case: nested item directories, two layouts, sparse contents, a corrupt file, an empty item directory, file names needing URL escaping (space, +, %, &, #, unicode), sibling directories whose hierarchical glob order differs from plain string order, paths below a regular file. " +
 			"drivers: (a) the commands' own read paths through the verif export hook (readWhisperFile, readWhisperFileRaw, sumWhisperFile, globFiles, globItems) called with the directory and with the URL for ~60 requests per case at VIRTUAL clocks: every archive selection incl. out of range, windows ending in the past / beyond a retention / in the future, existing, missing and corrupt files, patterns matching, not matching and syntactically bad; " +
 			"(b) the real binary, local and remote run inside the same wall-clock second: view, view-raw (-sort), sum, diff with either side remote, copy from the URL and from the directory into two fresh destinations. " +
 			"oracle: same success/failure; on success equal header and per archive absent-or-bit-equal series / raw point lists / identical name lists in order; on failure the same os.IsNotExist classification; CLI stdout byte-identical and same exit code; the two copied destinations byte-identical; server output scanned for 'panic serving'. " +
@@ -37,7 +37,7 @@ func (c12) Meta() fw.Meta {
 			"an absent series is the same observable as the all-zero empty series (nil vs zero-length), see DESIGN.md section 4 (fix 0902534)",
 			"error texts are not compared, only success/failure and the not-exist classification",
 		},
-		Obligations: []string{"pairs_view", "pairs_view_raw", "pairs_sum", "pairs_files", "pairs_items", "pairs_success_with_data", "pairs_notexist", "pairs_error", "absent_series_pairs", "escaped_name_pairs", "past_window_pairs", "bad_pattern_pairs", "cli_pairs", "cli_copy_pairs", "cli_diff_remote_side"},
+		Obligations: []string{"pairs_view", "pairs_view_raw", "pairs_sum", "pairs_files", "pairs_items", "pairs_success_with_data", "pairs_notexist", "pairs_error", "absent_series_pairs", "escaped_name_pairs", "past_window_pairs", "bad_pattern_pairs", "cli_pairs", "cli_copy_pairs", "cli_diff_remote_side", "path_below_regular_file_pairs"},
 		Workers:     8,
 	}
 }
@@ -110,7 +110,9 @@ func (c12) Run(c *fw.Ctx) {
 	}
 	odd := []string{"plain.wsp", "with space.wsp", "a+b.wsp", "100%.wsp", "q&a=1.wsp", "hash#1.wsp", "ünï.wsp"}
 	files := map[string]model.Layout{}
-	dirs := []string{"itemA", "itemB", filepath.Join("deep", "er")}
+	// "itemA-1" and "deep-1": siblings whose names extend another name with a character sorting before '/' and '.',
+	// so that hierarchical glob order and plain string order differ
+	dirs := []string{"itemA", "itemB", filepath.Join("deep", "er"), "itemA-1", filepath.Join("deep-1", "er")}
 	for di, d := range dirs {
 		n := 2 + r.Intn(3)
 		for i := 0; i < n; i++ {
@@ -188,6 +190,11 @@ func (c12) Run(c *fw.Ctx) {
 			rel = corrupt
 		case 2:
 			rel = filepath.Join(caseDir, "nodir", "x.wsp")
+		case 3:
+			if r.Intn(3) == 0 {
+				rel = filepath.Join(rel, "below-a-file.wsp") // a parent component is a regular file (ENOTDIR, not not-exist)
+				c.Count("path_below_regular_file_pairs", 1)
+			}
 		}
 		sel := r.Intn(len(l.Archs)+3) - 1 // -1 .. n+1
 		if r.Intn(8) == 0 {
@@ -243,7 +250,7 @@ func (c12) Run(c *fw.Ctx) {
 				return tslEqual(lt, rt)
 			})
 		case 7:
-			pat := []string{caseDir + "/*/*.wsp", caseDir + "/itemA/*", caseDir + "/deep/er/*.wsp", caseDir + "/zz*/*.wsp", caseDir + "/[", caseDir + "/itemA/with*", caseDir + "/*/*%*"}[r.Intn(7)]
+			pat := []string{caseDir + "/*/*.wsp", caseDir + "/itemA/*", caseDir + "/deep/er/*.wsp", caseDir + "/zz*/*.wsp", caseDir + "/[", caseDir + "/itemA/with*", caseDir + "/*/*%*", caseDir + "/item*/*.wsp", caseDir + "/*/er/*.wsp"}[r.Intn(9)]
 			ln, lerr := wcmd.VerifGlobFiles(served, pat)
 			rn, rerr := wcmd.VerifGlobFiles(u, pat)
 			if strings.HasSuffix(pat, "[") {
@@ -256,7 +263,7 @@ func (c12) Run(c *fw.Ctx) {
 				return ""
 			})
 		default:
-			pat := []string{caseDir + "/*", caseDir + "/item*", caseDir + "/deep/*", caseDir + "/zz*", caseDir + "/[a", caseDir + "/*/*"}[r.Intn(6)]
+			pat := []string{caseDir + "/*", caseDir + "/item*", caseDir + "/deep/*", caseDir + "/zz*", caseDir + "/[a", caseDir + "/*/*", caseDir + "/*/er", caseDir + "/deep*/*"}[r.Intn(8)]
 			ln, lerr := wcmd.VerifGlobItems(served, pat)
 			rn, rerr := wcmd.VerifGlobItems(u, pat)
 			if strings.HasSuffix(pat, "[a") {
